@@ -37,6 +37,10 @@ class PythonPrinter:
 
         self.in_indent_lines = False
 
+        # True while the last thing written is a line that opened an
+        # indentation level, i.e. the suite it introduced is still empty
+        self.suite_is_empty = False
+
         self._reset_multi_line_flags()
 
         # mapping of generated python lines to template
@@ -71,6 +75,7 @@ class PythonPrinter:
         The indentation of the total block of lines will be adjusted to that of
         the current indent level."""
         self.in_indent_lines = False
+        self.suite_is_empty = False
         for i, l in enumerate(re.split(r"\r?\n", block)):
             self.line_buffer.append(l)
             if starting_lineno is not None:
@@ -127,6 +132,7 @@ class PythonPrinter:
         # write the line
         self.stream.write(self._indent_line(line) + "\n")
         self._update_lineno(len(line.split("\n")))
+        indent_before = self.indent
 
         # see if this line should increase the indentation level.
         # note that a line can both decrase (before printing) and
@@ -152,6 +158,7 @@ class PythonPrinter:
                 if m2:
                     self.indent += 1
                     self.indent_detail.append(indentor)
+        self.suite_is_empty = self.indent > indent_before
 
     def close(self):
         """close this printer, flushing any remaining lines."""
